@@ -183,29 +183,31 @@ def run(ctx):
     ms = F.fn('<&%sStunMappedAddressAttribute as std::convert::Into<std::vec::Vec<u8>>>::into' % S)
     it = vec_layout(ms)
 
-    def kind(x):
-        s_ = short(x['value'])
-        return 'type' if 'type_' in s_ else 'length' if 'length' in s_ else 'reserved' if 'reserved' in s_ else 'family' if 'protocol_family' in s_ else 'port' if 'port' in s_ else 'addr' if 'octets' in s_ else '?'
-    fields, problems = field_groups(ms, it, kind)
-    kinds = [fd['kind'] for fd in fields]
-    widths = [fd['width'] for fd in fields[:5]]
-    rep.check(r2, kinds == ['type', 'length', 'reserved', 'family', 'port', 'addr'] and widths == [2, 2, 1, 1, 2] and not problems,
-              'mapped:wire-order', 'serialised as %s, widths %s%s' % (kinds, widths, ('; ' + '; '.join(problems)) if problems else ''), '%s:%d' % (ms.file, ms.line))
-    # port bytes big-endian; address octets by variant
-    if kinds == ['type', 'length', 'reserved', 'family', 'port', 'addr']:
-        pit = fields[4]['items']
-        if len(pit) == 2:
-            ph, plo = pit[0]['value'], pit[1]['value']
-            okp = any(isinstance(x, tuple) and x[0] == 'bin' and x[1] == 'Shr' and const_val(x[3]) == 8 for x in walk(ph)) and any(isinstance(x, tuple) and x[0] == 'bin' and x[1] == 'BitAnd' and const_val(x[3]) == 0xff for x in walk(plo))
-        else:
-            okp = len(pit) == 1 and bool(calls_in(pit[0]['value'], r'::to_be_bytes$')) and not calls_in(pit[0]['value'], r'swap_bytes|to_le|rotate')
+    # byte-level wire layout (vlib.layout.byte_layout): independent of push / extend_from_slice / array-literal spelling
+    head = [x for x in it if x['must']]
+    tail = [x for x in it if not x['must']]
+    hb = [b for b, _ in byte_layout(ms, head)]
+    want = [('field', 'type_', 1), ('field', 'type_', 0), ('field', 'length', 1), ('field', 'length', 0), ('field', 'reserved', 0), ('field', 'protocol_family', 0),
+            ('field', 'port', 1), ('field', 'port', 0)]
+    # the address may be one unconditional append of a merged value, or one append per variant
+    addr_items = list(tail)
+    if len(hb) > 8 and not tail:
+        addr_items = [head[-1]]
+        hb = [b for b, _ in byte_layout(ms, head[:-1])]
+    fields, problems = field_groups(ms, addr_items, lambda x: 'addr')
+    order_ok = all(a['block'] in ms.reachable(h['block']) for a in addr_items for h in (head if tail else head[:-1]))
+    rep.check(r2, hb == want and len(fields) == 1 and not problems and order_ok, 'mapped:wire-order',
+              'header bytes %s (required type.be length.be reserved family port.be), then the address%s' % (['%s.%s' % (b[1], b[2]) if b[0] == 'field' else str(b) for b in hb], ('; ' + '; '.join(problems)) if problems else ''), '%s:%d' % (ms.file, ms.line))
+    if addr_items:
         av = []
-        for x in fields[5]['items']:
+        for x in addr_items:
             av += palts(x['value'], unwraps=False)
         v4 = [a for a in av if calls_in(a, r'Ipv4Addr::octets$') and 'V4' in short(a)]
         v6 = [a for a in av if calls_in(a, r'Ipv6Addr::octets$') and 'V6' in short(a)]
         other = [a for a in av if a not in v4 and a not in v6 and not is_call(peel(a, unwraps=False), r'Vec::<[^>]*>::new$')]
-        rep.check(r2, okp and len(v4) == 1 and len(v6) == 1 and not other, 'mapped:port-and-address-bytes', 'port high byte then low byte; address = octets() of the variant payload (4 or 16 bytes)%s' % ('; other address alternatives: %s' % [short(a)[:60] for a in other] if other else ''))
+        rep.check(r2, len(v4) == 1 and len(v6) == 1 and not other, 'mapped:port-and-address-bytes', 'port high byte then low byte (bit-exact, see wire-order); address = octets() of the variant payload (4 or 16 bytes)%s' % ('; other address alternatives: %s' % [short(a)[:60] for a in other] if other else ''))
+    else:
+        rep.bad(r2, 'mapped:port-and-address-bytes', 'no address bytes appended')
 
     r3 = rep.rule('C15-R3', 'the converse: a parsable message of class request / method binding from a known client address is always answered, and every CHANGE-REQUEST attribute reaches the change-port test', floor=2)
     from rules import silence
@@ -226,4 +228,20 @@ def run(ctx):
     if ok:
         r_ = rp.reachable(arm[0], removed_blocks=cp)
         ok = nx[0] not in r_ and not any(x in r_ for x in rp.return_blocks())
+    if not ok and not nx:
+        # the same scan written as attributes.iter().any(|a| ..): the predicate must look at change_port of every
+        # CHANGE-REQUEST it is shown, and the scan must run on every answered path
+        variants = [v['name'] for v in F.adts[S + 'StunAttribute']['variants']]
+        cr = variants.index('ChangeRequest')
+        anyb = [(b, t) for b, t in rp.calls(r'Iterator>::any$|Iterator::any$') if 'attributes' in short(rp.argv(b, 0))]
+        if len(anyb) == 1:
+            cl = [x for x in walk(rp.argv(anyb[0][0], 1)) if isinstance(x, tuple) and x[0] == 'agg' and str(x[1]).startswith('closure:')]
+            if len(cl) == 1 and cl[0][1][len('closure:'):] in F.fns:
+                g = F.fn(cl[0][1][len('closure:'):])
+                _, exits = fact_sim(g, lambda k: True)
+                crx = [facts for (_, (_, facts)) in exits if any(isinstance(k, tuple) and k[0] == 'discr' and r_ == '==' and c_ == cr for (k, r_, c_) in facts)]
+                tested = all(any(short(k).endswith('.change_port') for (k, r_, c_) in facts) for facts in crx)
+                r_ = rp.reachable(0, removed_blocks=[anyb[0][0]])
+                ok = bool(crx) and tested and not any(x in r_ for x in some_points(rp))
+                cp = [anyb[0][0]]
     rep.check(r3, ok, 'change-port-test-always-reached', 'from the CHANGE-REQUEST arm every path tests change_port before the loop continues or the function returns: %s' % ok, rp.loc(cp[0]) if cp else '')
